@@ -1,33 +1,39 @@
 import Nsq.Model.Line
 import Nsq.Model.WireStack
 /-! Line protocol of the `stack` operation of `drv_e1` (harness/e1/reident_test.go, TestVerifStackCorr):
-tokens `r<hex>` `m<hex>` `f` `b<n>` `us` `ud<level>` `s`; answer: for each client stack `k` either
+tokens `r<hex>` `m<hex>` `f` `b<n>` `us` `ud<level>` `ut` `s`; answer: for each client stack `k` either
 `k:ok:<plaintext the client decodes on it>` or `k:garbled` (some non-empty output was written to another
-transport while the client was reading stack `k`), then `buf=<bytes still buffered>`. -/
+transport while the client was reading stack `k`), then `buf=<bytes still buffered>`.
+Round 11: the tree is a `Tree` (which upgrades drop `c.flateWriter`); as soon as a STALE flate writer has written
+a marker the client's session is broken: the line stops there, the stack it happened on is answered
+`k:cut:<plaintext decoded on it before the marker>` and the line ends with `dead` (no `buf=`). -/
 namespace Nsq.Model.WireStack
 open Nsq.Model.Wire Nsq.Line
 
 /-- the state threaded through a line: the connection and the current `OutputBufferSize` -/
 structure LineSt where
-  c : TConn
+  c : KConn
   size : Nat := 16384
 
-def lineTok (fixed : Bool) (st : LineSt) (tok : String) : Option LineSt :=
-  if tok = "f" then some { st with c := tstep fixed st.c .flush }
-  else if tok = "s" then some { st with c := tstep fixed st.c .subscribe }
-  else if tok = "us" || tok.startsWith "ud" then some { st with c := tstep fixed st.c (.upgrade st.size) }
+def lineTok (tr : Tree) (st : LineSt) (tok : String) : Option LineSt :=
+  if !st.c.stray.isEmpty then some st      -- the client gave up
+  else if tok = "f" then some { st with c := kstep tr st.c .flush }
+  else if tok = "s" then some { st with c := kstep tr st.c .subscribe }
+  else if tok = "us" then some { st with c := kstep tr st.c (.upgrade .snappy st.size) }
+  else if tok = "ut" then some { st with c := kstep tr st.c (.upgrade .tls st.size) }
+  else if tok.startsWith "ud" then some { st with c := kstep tr st.c (.upgrade .deflate st.size) }
   else if tok.startsWith "b" then
     match (String.ofList (tok.toList.drop 1)).toInt? with
     | some n =>
       if n = 0 then some st
       else
         let sz := if n = -1 then 1 else n.toNat
-        some { c := tstep fixed st.c (.setOutputBuffer sz), size := sz }
+        some { c := kstep tr st.c (.setOutputBuffer sz), size := sz }
     | none => none
   else if tok.startsWith "r" then
-    (unhex (String.ofList (tok.toList.drop 1))).map fun d => { st with c := tstep fixed st.c (.sendResponse ⟨0#32, d⟩) }
+    (unhex (String.ofList (tok.toList.drop 1))).map fun d => { st with c := kstep tr st.c (.sendResponse ⟨0#32, d⟩) }
   else if tok.startsWith "m" then
-    (unhex (String.ofList (tok.toList.drop 1))).map fun d => { st with c := tstep fixed st.c (.sendMessage ⟨2#32, d⟩) }
+    (unhex (String.ofList (tok.toList.drop 1))).map fun d => { st with c := kstep tr st.c (.sendMessage ⟨2#32, d⟩) }
   else none
 
 def showStack (c : TConn) (k : Nat) : String :=
@@ -35,10 +41,20 @@ def showStack (c : TConn) (k : Nat) : String :=
   if mine.any (fun s => s.dest != k && !s.data.isEmpty) then s!"{k}:garbled"
   else s!"{k}:ok:{hex ((mine.map (·.data)).flatten)}"
 
-def stackLine (fixed : Bool) (toks : List String) : String :=
-  match toks.foldl (fun acc t => acc.bind (fun st => lineTok fixed st t)) (some { c := tconn0 16384 }) with
+/-- the stack a stray marker hit: what the client had decoded on it before -/
+def showCut (c : TConn) (k : Nat) (pos : Nat) : String :=
+  let before := ((c.segs.filter (fun s => s.want < k)).map (·.data)).flatten.length
+  let mine := ((c.segs.filter (fun s => s.want = k)).map (·.data)).flatten
+  s!"{k}:cut:{hex (mine.take (pos - before))}"
+
+def stackLine (tr : Tree) (toks : List String) : String :=
+  match toks.foldl (fun acc t => acc.bind (fun st => lineTok tr st t)) (some { c := kconn0 16384 }) with
   | none => "bad-op"
   | some st =>
-    " ".intercalate ((List.range (st.c.top + 1)).map (showStack st.c) ++ [s!"buf={st.c.w.buf.length}"])
+    match st.c.stray with
+    | [] =>
+      " ".intercalate ((List.range (st.c.t.top + 1)).map (showStack st.c.t) ++ [s!"buf={st.c.t.w.buf.length}"])
+    | s :: _ =>
+      " ".intercalate ((List.range s.want).map (showStack st.c.t) ++ [showCut st.c.t s.want s.pos, "dead"])
 
 end Nsq.Model.WireStack
